@@ -4,4 +4,5 @@ pub mod encs;
 pub mod fw;
 pub mod gen;
 pub mod golden;
+pub mod hist;
 pub mod model_dec;
